@@ -131,6 +131,11 @@ class Ctx:
         env.update(GOENV)
         env["VERIF_SEED"] = str(self.seed)
         env["VERIF_TIER"] = self.tier
+        if args and args[0] == "replay":
+            for f in os.listdir(self.work):
+                if f.startswith("mark."):
+                    os.remove(os.path.join(self.work, f))
+            env["VERIF_MARK"] = os.path.join(self.work, "mark")
         if env_extra:
             env.update(env_extra)
         t = time.time()
@@ -140,7 +145,12 @@ class Ctx:
         except subprocess.TimeoutExpired:
             raise Infra("harness timeout: vh " + " ".join(map(str, args)))
         if p.returncode not in (0,):
-            raise Infra("harness failed rc=%d: vh %s\n%s" % (p.returncode, " ".join(map(str, args)), (p.stderr or "")[-4000:]))
+            err = p.stderr or ""
+            m = re.search(r"^(fatal error: .*|panic: .*|runtime: goroutine stack exceeds.*)$", err, re.M)
+            if m and not getattr(self, "_in_crash_probe", False):
+                # the Go runtime went down: the harness itself is panic-safe, so this is most likely the code under test
+                raise HarnessCrash(list(map(str, args)), m.group(1)[:160], err[-3000:], race)
+            raise Infra("harness failed rc=%d: vh %s\n%s" % (p.returncode, " ".join(map(str, args)), err[-4000:]))
         lines = [l for l in p.stdout.splitlines() if l.strip()]
         if not lines:
             raise Infra("harness printed nothing: vh " + " ".join(map(str, args)))
@@ -307,6 +317,83 @@ class Ctx:
             for k in ("nontrivial", "drift", "traces", "notes"):
                 if k in rep:
                     e[k] = rep[k]
+
+
+class HarnessCrash(Exception):
+    """The harness process was brought down by the Go runtime (fatal error, unrecovered panic)."""
+    def __init__(self, args, first, stderr, race=False):
+        Exception.__init__(self, first)
+        self.vh_args, self.first, self.stderr, self.race = args, first, stderr, race
+
+
+def crashes(ctx, args, race=False, env_extra=None):
+    """Run the harness once more; True if the Go runtime brings it down again."""
+    ctx._in_crash_probe = False
+    try:
+        ctx.vh(args, race=race, env_extra=env_extra)
+    except HarnessCrash:
+        return True
+    except Infra:
+        return False
+    return False
+
+
+def crash_to_violation(ctx, e):
+    """Localise a crash of the harness process and confirm it.  replay: the cases that were in progress (marker files)
+    are re-run alone, each in a fresh process; record: the recorder is run again with the same seed and length.
+    Returns a violation (dict) if the crash comes back, else None (infrastructure failure)."""
+    a = e.vh_args
+    sig = "crash:" + re.sub(r"[^A-Za-z0-9]+", "-", e.first)[:70]
+    if a and a[0] == "replay":
+        world, batch = a[1], a[2]
+        lines = set()
+        for f in os.listdir(ctx.work):
+            if f.startswith("mark."):
+                try:
+                    lines.add(int(open(os.path.join(ctx.work, f)).read().split()[0]))
+                except (ValueError, IndexError):
+                    pass
+        wanted = sorted(x for x in lines if x > 0)
+        if not wanted:
+            return None
+        got = {}
+        with open(batch, errors="replace") as fi:
+            for no, line in enumerate(fi, 1):
+                if no in lines:
+                    got[no] = line
+                if no > wanted[-1]:
+                    break
+        for no in wanted:
+            line = got.get(no, "").strip()
+            try:
+                case = json.loads(json.loads(line)) if line.startswith('"') else json.loads(line)
+            except ValueError:
+                continue
+            path = os.path.join(ctx.work, "crash-case-%d.json" % no)
+            json.dump(case, open(path, "w"))
+            if crashes(ctx, ["one", path], race=e.race):
+                return {"sig": sig, "what": "the code under test brings the process down on this case (%s)\n%s" % (e.first, e.stderr[-1200:]), "case": case}
+        return None
+    if a and a[0] == "record":
+        world, n = a[1], a[a.index("-n") + 1] if "-n" in a else "0"
+        case = {"w": world, "k": "recordcrash", "in": {"n": int(n), "seed": ctx.seed}}
+        out = os.path.join(ctx.work, "crash-record.ndjson")
+        if crashes(ctx, ["record", world, out, "-n", n], race=e.race):
+            return {"sig": sig, "what": "the code under test brings the recorder down (%s); vh record %s -n %s with VERIF_SEED=%s\n%s" % (e.first, world, n, ctx.seed, e.stderr[-1200:]), "case": case}
+    return None
+
+
+def crash_replay(ctx, path, verbose=False):
+    v = json.load(open(path))
+    case = v.get("case") or {}
+    if case.get("k") == "recordcrash":
+        old = ctx.seed
+        ctx.seed = case["in"].get("seed", ctx.seed)
+        try:
+            return crashes(ctx, ["record", case["w"], os.path.join(ctx.work, "crash-replay.ndjson"), "-n", str(case["in"]["n"])])
+        finally:
+            ctx.seed = old
+    return crashes(ctx, ["one", path])
 
 
 # ------------------------------------------------------------------ findings
